@@ -49,8 +49,10 @@ def mkrec(word, topo):
     return impl.CircularRecord(impl.Seq(word), id="q")
 
 
-def answer(cls, word, topo="C"):
-    ent = cls(mkrec(word, topo))
+def answer(cls, word, topo="C", rec=None, keep=None):
+    ent = cls(mkrec(word, topo) if rec is None else rec)
+    if keep is not None:
+        keep.append(ent)
     try:
         if not ent.is_valid():
             return ["invalid"]
@@ -70,17 +72,25 @@ def resolve(classes, ref):
     return classes[ref]
 
 
-def run_history(classes, hist):
-    """hist = [(ref, word)]; returns the answers of every call"""
+def run_history(classes, hist, share=False):
+    """hist = [(ref, word)]; returns the answers of every call.  With `share`, equal (word, topology) pairs are
+    the same record *object* throughout the history and every wrapper built so far stays alive — a plasmid
+    loaded once and typed with several classes"""
     made = {}
     out = []
+    recs, alive = {}, []
     for h in hist:
         ref, word = h[0], h[1]
         topo = h[2] if len(h) > 2 else "C"
         key = json.dumps(ref)
         if key not in made:
             made[key] = resolve(classes, ref)
-        out.append(answer(made[key], word, topo))
+        if share:
+            if (word, topo) not in recs:
+                recs[(word, topo)] = mkrec(word, topo)
+            out.append(answer(made[key], word, topo, rec=recs[(word, topo)], keep=alive))
+        else:
+            out.append(answer(made[key], word, topo))
     return out
 
 
@@ -97,7 +107,13 @@ def setup(rng):
     for c in classes:
         inst, _ = gen.instantiate(r, c.structure(), runlen=r.choice([2, 5, 9]))
         words.append(gen.rot(inst + gen.rnd(r, 7), r.randrange(0, 9)))
-    _state.update(classes=classes, words=words, fresh={})
+    # plasmids carrying two instances of the structure: which one is reported must not depend on the past
+    doubles = []
+    for c in classes:
+        i1, _ = gen.instantiate(r, c.structure(), runlen=r.choice([2, 4]))
+        i2, _ = gen.instantiate(r, c.structure(), runlen=r.choice([2, 4]))
+        doubles.append(i1 + gen.rnd(r, 5) + i2 + gen.rnd(r, 6))
+    _state.update(classes=classes, words=words, doubles=doubles, fresh={})
     return _state
 
 
@@ -112,7 +128,7 @@ def check_case(ctx, case):
     S = setup(ctx.rng)
     classes = S["classes"]
     hist = [(h[0], h[1], h[2] if len(h) > 2 else "C") for h in case["history"]]
-    got = forked(lambda: run_history(classes, hist))
+    got = forked(lambda: run_history(classes, hist, share=bool(case.get("share"))))
     if got and got[0] == "child-exception":
         ctx.fail("history raised {}: {}".format(got[1], got[2]), case)
         return
@@ -172,6 +188,25 @@ def run(ctx):
         if related and rng.random() < 0.6:
             a, b = rng.choice(related)
             hist[-2:] = [[a, words[a]], [b, words[rng.choice([a, b])]]]
+        ctx.guard(check_case, {"history": hist})
+    # one plasmid object typed with a class and then with a related class while the first wrapper is alive
+    for _ in range(ctx.budget(120, 2500)):
+        a, b = rng.choice(related) if related else (0, 0)
+        w = words[rng.choice([a, b])]
+        hist = [[a, w], [b, w]]
+        if rng.random() < 0.4:
+            c = rng.randrange(n)
+            hist.insert(rng.randrange(3), [c, rng.choice([w, words[c]])])
+        ctx.guard(check_case, {"history": hist, "share": True})
+    # a record with one occurrence of the structure, then one with two, typed by the same class: which
+    # occurrence is reported (hence verdict, overhangs, target) must be that of a fresh interpreter
+    for _ in range(ctx.budget(150, 3000)):
+        c = rng.randrange(n)
+        w1 = gen.rot(words[c], rng.randrange(len(words[c])))
+        w2 = gen.rot(S["doubles"][c], rng.randrange(len(S["doubles"][c])))
+        hist = [[c, w1], [c, w2]]
+        if rng.random() < 0.3:
+            hist.insert(1, [c, gen.rot(words[c], rng.randrange(len(words[c])))])
         ctx.guard(check_case, {"history": hist})
     # the same letters as a circular plasmid and as a linear fragment, in both orders, same and related classes
     for _ in range(ctx.budget(120, 2500)):
